@@ -4,7 +4,7 @@ E3 bounded check for C20 - disabled features and neutral settings are inert.
 
     /venv/bin/python /verif/e3/c20_inert.py --tier quick|thorough --seed N --out x.json
 
-BOUNDED, NOT A PROOF.  For each of 8 base configurations, every applicable transformation alone and
+BOUNDED, NOT A PROOF.  For each of 9 base configurations, every applicable transformation alone and
 every pair of applicable transformations that touch disjoint parameters is applied to a fresh copy
 of the base configuration; the transformed run's water_flux, water_storage and crop_growth tables
 are compared bit for bit (IEEE-754 pattern, all rows, all columns) with the base run's, and the
@@ -59,7 +59,7 @@ TABLE_COLS = {
 
 # ------------------------------------------------------------------------------------- bases
 def bases(seed, variant=0):
-    """8 base configurations; `variant` shifts the start years (thorough tier runs variants 0 and 1)."""
+    """9 base configurations; `variant` shifts the start years (thorough tier runs variants 0 and 1)."""
     s = int(seed) + 3 * variant
 
     def mk(i, crop, planting, soil, irr, field, fallow, gw, iwc, wx, year, nseasons=1, off=False, pre=0):
@@ -94,6 +94,10 @@ def bases(seed, variant=0):
         mk(8, "Barley", "10/15", "SiltLoam", {"method": 5, "depth": 4.0, "WetSurf": 60}, None, None, None, "WP",
            {"kind": "tunis"}, 1983 + s % 14),
     ]
+    # a calendar-day crop converted to thermal time at initialisation (SwitchGDD=1): its calendar is derived from the weather
+    b9 = mk(9, "Maize", "05/01", "SandyLoam", None, None, None, None, "FC", {"kind": "champion"}, 1982 + s % 20, nseasons=2)
+    b9["crop_kw"] = {"SwitchGDD": 1}
+    B.append(b9)
     for b in B:
         b["variant"] = variant
     return B
@@ -205,7 +209,9 @@ def base_run(base):
     key = (base["base"], base["variant"])
     if key not in _BASE:
         tabs, fs, m = run_tables(base)
-        _BASE[key] = (tabs, fs, str(m.crop.harvest_date), int(m._clock_struct.n_seasons),
+        # the date the model derived itself: read from the model's private crop copy (the user's Crop object is not modified by a run)
+        derived = m._param_struct.Seasonal_Crop_List[0].harvest_date if m.crop.harvest_date is None else m.crop.harvest_date
+        _BASE[key] = (tabs, fs, str(derived), int(m._clock_struct.n_seasons),
                       float(np.sum(tabs["water_flux"][:, 8])), float(np.sum(tabs["water_flux"][:, 6])))
     return _BASE[key]
 
@@ -396,7 +402,7 @@ def main():
                           "layered low-Ksat subsoil/SMT irrigation eff 80, B5 MaizeGDD/SandyLoam/6-day interval/water table 1.5 m, "
                           "B6 Cotton/Loam/schedule/mulches on, B7 PaddyRice/Paddy/net irrigation/bunds on/saturated start, B8 Barley/"
                           "SiltLoam/constant 4 mm/start at WP. 23 transformations, listed in the module docstring. Base facts: %s"
-                          % (len(allb), "8 bases" + (" x 2 start-year variants, pairs on all bases" if a.tier == "thorough" else
+                          % (len(allb), "9 bases" + (" x 2 start-year variants, pairs on all bases" if a.tier == "thorough" else
                                          "; pairs only on bases %s in the quick tier" % sorted(pair_bases)), n_single, n_pair,
                              n_single + n_pair, basefacts))
         ok = [r for r in results if r.get("cfg")]
